@@ -214,7 +214,19 @@ func classifyRuntimeError(msg string) string {
 			return ""
 		}
 	}
-	// strip the data to get a root-cause signature
+	// strip the data to get a root-cause signature; of a datum of the wrong type
+	// keep what it is (a histogram's buckets, or a scalar) and what was wanted
+	if i := strings.Index(first, "datum &{"); i > 0 {
+		kind := "scalar"
+		if strings.Contains(first[i:], "[{{") || strings.Contains(first[i:], "] 0 0}") {
+			kind = "buckets"
+		}
+		want := ""
+		if j := strings.LastIndex(first, " is not a"); j > i {
+			want = first[j:]
+		}
+		first = first[:i] + "datum(" + kind + ")" + want
+	}
 	if i := strings.Index(first, "&{"); i > 0 {
 		first = first[:i]
 	}
